@@ -217,7 +217,12 @@ PROPS.update({
                      "enum_dup_name_rejected", "enum_out_of_range_rejected", "struct_list_rejected", "struct_message_rejected", "struct_self_rejected",
                      "channel_non_message_rejected", "input_non_message_rejected", "dup_method_rejected", "dup_definition_rejected",
                      "circular_import_rejected", "missing_import_rejected", "bad_import_rejected"]] + ["SpecVerif.C15.parse_print"],
-        "ties": LANG_TIES,
+        "ties": LANG_TIES + ev("model_getPackage", "model_compileFiles", "model_parsePackage", "model_parseDefinitions", "model_file_resolve",
+                               "model_parseImport", "model_newField", "model_newFields", "model_field_resolved", "model_parseEnum", "model_enum_parseValue",
+                               "model_struct_validate", "model_structField_validate", "model_structField_contains", "model_structField_compile",
+                               "model_method_compile", "model_method_compileInput", "model_method_compileOutput", "model_method_compileType",
+                               "model_channel_compile", "model_type_resolve", "model_generateMessageDef", "model_service_parseMethod",
+                               "gen_file", "gen_importPackage"),
         "streams": [{"name": "c14", "gen": ["{bin}/langc", "gen", "c14", "{seed}", "{tier}", "{stats}"], "go": ["{bin}/langc"], "lean": ["{lean}/langdriver"]}],
         "flag": r" VIOL ",
         "diff_ignore": lang_unmodelled,
@@ -226,5 +231,37 @@ PROPS.update({
                     "the rule model (Lang/Check.lean) is hand-written from internal/lang/model and compared with the compiler on every line"],
         "assumptions": ["partial: 'accepted schemas produce code the Go compiler accepts' and 'never panics or hangs' are decided by running the compiler and go build on the stream (about 600 bundles per quick run), not by a theorem",
                         "import ids are plain names (directory names) in the model"],
+    },
+    "C17": {
+        "level": "other",
+        "audit_imports": ["SpecVerif.Props.C17", "SpecVerif.TiesMpx"],
+        "lean_targets": ["SpecVerif.Props.C17", "SpecVerif.TiesMpx"],
+        "go_cmds": ["allocs"],
+        "theorems": ["SpecVerif.C17." + t for t in ["after_mono", "after_covers", "steady_state_zero", "runAll_covers", "warmup_once", "second_pass_free"]],
+        "ties": ev("pool_stack_reset", "pool_listStack_reset", "pool_messageStack_reset", "pool_writerState_reset", "pool_writerState_init"),
+        "streams": [scen("allocs", "{bin}/allocs", "c17", "{seed}", "{tier}")],
+        "flag": MPX_FLAG,
+        "rule": "one evaluation = one message shape (directed shapes at and beyond every preallocated size: 47..5000 fields, tags to 65535, lists to 2000 elements, nesting depth to 200, payloads to 1 MiB; plus generator shapes, a third with structs) measured with the runtime allocation counter (MemStats.Mallocs delta, GC off, GOMAXPROCS 1, minimum of three): complete recursive read through both the generic and the typed accessors, steady-state write with a reused writer and with a pooled message writer after warm-up, and 12 (quick) hostile mutants per shape of which the accepted ones are read completely; distinct non-trivial = distinct result lines",
+        "trusted": ["the allocation counts are facts about the Go compiler (escape analysis, inlining) and runtime on this toolchain: measured, not proved",
+                    "the capacity model (Props/C17.lean: a region allocates only when the need exceeds its capacity and never shrinks) is tied to the stack reset functions (slices cut to length 0, capacity kept) by event sequences"],
+        "assumptions": ["partial by nature: the theorems state the capacity logic (same shape again => no growth; one warm-up pass over any shapes => none of them grows again), the zero itself is the measurement"],
+    },
+    "C18": {
+        "level": "proof",
+        "audit_imports": ["SpecVerif.Props.C18", "SpecVerif.Props.C12", "SpecVerif.TiesMpx"],
+        "lean_targets": ["SpecVerif.Props.C18", "SpecVerif.Props.C12", "SpecVerif.TiesMpx"],
+        "go_cmds": ["poolscen", "poolscen.race"],
+        "theorems": ["SpecVerif.C18." + t for t in ["inv_reachable", "acquired_is_clean", "never_shared", "unreset_fields_are_stateless", "unrepaired_shares_object"]] + ["SpecVerif.C12.reset_clean"],
+        "ties": ev("pool_writerState_reset", "pool_writerState_init", "pool_releaseWriterState", "pool_writer_reset", "pool_stack_reset", "pool_listStack_reset",
+                   "pool_messageStack_reset", "pool_mpx_channelState_reset", "pool_mpx_releaseChannelState2", "pool_mpx_releaseChannelHandler",
+                   "pool_rpc_channelState_reset", "pool_rpc_releaseState", "pool_rpc_requestState_reset", "pool_rpc_releaseRequestState",
+                   "pool_rpc_serverChannelState_reset", "pool_rpc_releaseServerState"),
+        "streams": [scen("pool", "{bin}/poolscen", "c18", "{seed}", "{tier}"),
+                    scen("pool-race", "{bin}/poolscen.race", "c18", "{seed}", "quick", tiers=["thorough"], timeout=1500)],
+        "flag": MPX_FLAG,
+        "rule": "one evaluation = one run of 120..800 seeded write/read programs (valid, failing midway in three ways, truncated/abandoned; seven writer variants: owned, reused with Reset, pooled message/list/value writers, self-releasing) on 2..16 goroutines together with mpx echo and rpc echo traffic, every result compared with the same program run alone; a registry of writer objects in use catches an object handed out twice; thorough tier: the same under the race detector (a data race is a VIOL line and exit 66)",
+        "trusted": ["the Go race detector for the race-freedom clause (no memory-model theorem); sync.Pool semantics as modelled (Pool/Model.lean)",
+                    "the extractor computes, for every pooled type, the fields that neither reset() nor the pool's release function assigns"],
+        "assumptions": ["an object is released only by its owner and not used afterwards (API contract; the library's own releases are tied by event sequences)"],
     },
 })
